@@ -311,6 +311,7 @@ func genCases(c *Ctx) []*c11Case {
 			cs.handshake(0, id, nil)
 			if id == "alpha" {
 				cs.expect[0] = "open"
+				cs.spec.SockOpenOK = true
 				datagram := tr == "udp" || tr == "udp-dial"
 				if !datagram {
 					cs.hang(0)
@@ -597,6 +598,15 @@ func runC11(c *Ctx) {
 	dir, err := os.MkdirTemp("", "c11-run-")
 	Must(err)
 	defer os.RemoveAll(dir)
+	// socket scenarios: an unexpected fate is confirmed by running the case alone
+	ExtraSuspect = func(id int, o *CaseObs) bool {
+		if id < 0 || id >= len(cases) || !strings.HasPrefix(cases[id].kind, "transport:") || o.Err != "" {
+			return false
+		}
+		tmp := NewImpl("C11", 0, "probe")
+		cases[id].oracle(tmp, o, nil)
+		return len(tmp.Violations) > 0
+	}
 	type endings struct {
 		jobs []endingJob
 		res  []endingResult
